@@ -261,6 +261,15 @@ def build(ctx, cfg):
     pre["times"] = And([And(0 <= p.t0[i], p.t0[i] < Tn) for i in range(N)])
     pre["tracklets"] = I.partition_local(sh, p.tid0, lambda a, b: sh.outdeg[a] == 1)
     pre["lineages"] = I.partition_local(sh, p.lid0, lambda a, b: True)
+    fx = cfg.get("fixed")
+    if fx:
+        # scenario-directed run: the forest shape and the times are CONCRETE (a deeper structure than the free runs
+        # can afford), ids, attributes, array cells and the action's arguments stay symbolic
+        cs = [p.alive0[i] == bool(fx["alive"][i]) for i in range(N)]
+        cs += [p.t0[i] == fx["t"][i] for i in range(N) if fx["alive"][i]]
+        es = set(map(tuple, fx["edges"]))
+        cs += [p.adj0[a][b] == ((a, b) in es) for a in range(N) for b in range(N) if a != b]
+        pre["fixed_scenario"] = And(cs)
     p.maxt, p.maxl = z3.Int("max_tid"), z3.Int("max_lid")
     pre["max"] = And([Implies(sh.al[i], And(p.tid0[i] <= p.maxt, p.lid0[i] <= p.maxl)) for i in range(N)]
                      + [p.maxt >= 0, p.maxl >= 0])
